@@ -76,7 +76,22 @@ def run_rig(script, name, *, timeout=300, bindir=None, strace=None, keep_output=
                            text=True, errors="replace")
     except subprocess.TimeoutExpired:
         raise util.ToolError("rig run %s timed out after %ss" % (name, timeout))
-    ev = util.read_ndjson(out) if os.path.exists(out) else []
+    # the process exits while background tasks may still be emitting: everything after the Done event (possibly a
+    # torn last line) is ignored
+    ev = []
+    if os.path.exists(out):
+        with open(out, errors="replace") as f:
+            for line in f:
+                line = line.strip()
+                if not line:
+                    continue
+                try:
+                    e = json.loads(line)
+                except json.JSONDecodeError:
+                    if any(x.get("e") == "Done" for x in ev[-50:]):
+                        break
+                    raise util.ToolError("rig run %s: unparsable trace line before Done: %s" % (name, line[:120]))
+                ev.append(e)
     if keep_output:
         with open(os.path.join(d, "stdout.txt"), "w") as f:
             f.write(p.stdout or "")
